@@ -50,6 +50,10 @@ def enumerate_cases(tier, seed):
         for wi in range(3):
             cases.append({"id": f"Mixture|{comp}|w={wi}", "leg": "mix", "comp": comp, "wi": wi, "x64": True, "seed": seed})
     cases.append({"id": "StandardNormal", "leg": "std", "x64": True, "seed": seed})
+    # many independent dimensions with scales far from 1 (sum of logs vs log of a product), both dtypes
+    for x64 in (True, False):
+        for fam in ("Normal", "Laplace", "Uniform", "LogNormal", "Exponential", "StudentT"):
+            cases.append({"id": f"highdim|{fam}|x64={int(x64)}", "leg": "highdim", "fam": fam, "x64": x64, "seed": seed})
     return cases
 
 
@@ -249,6 +253,40 @@ def run_case(case):
                     return make_scalar_cdf(fam, A_[j], B_[j], None if DF_ is None else DF_[j])(xs)
 
                 ks(d, cdf, shape, "family")
+    elif leg == "highdim":
+        fam = case["fam"]
+        f32 = not case["x64"]
+        for dim in (16, 64, 400):
+            for scv in (1e-3, 0.05, 20.0, 40.0):
+                a = np.linspace(-1.0, 1.0, dim)
+                b = np.full(dim, scv)
+                df = np.full(dim, 4.0) if fam == "StudentT" else None
+                d, ref, acc = make(fam, a.astype(np.float32) if f32 else a, b.astype(np.float32) if f32 else b, df)
+                A64, B64 = (np.asarray(a, np.float32).astype(float), np.asarray(b, np.float32).astype(float)) if f32 else (a, b)
+                _, ref64, _ = make(fam, A64, B64, df)
+                pts = []
+                for t in (0.3, -1.2):
+                    if fam == "Uniform":
+                        pts.append(A64 + B64 * 0.37)
+                    elif fam == "Exponential":
+                        pts.append(abs(t) / B64)
+                    elif fam == "LogNormal":
+                        pts.append(np.exp(A64 + B64 * t))
+                    else:
+                        pts.append(A64 + B64 * t)
+                X = np.stack(pts)
+                if f32:
+                    X = X.astype(np.float32).astype(float)
+                lp = np.asarray(d.log_prob(jnp.asarray(X, jnp.float32 if f32 else jnp.float64)), float)
+                want = ref64.logpdf(X).sum(-1)
+                tr += len(X)
+                nt += len(X)
+                tol = (2e-4 if f32 else 1e-9) * (1 + np.abs(want)) * (50 if f32 and fam in ("Uniform", "LogNormal", "Exponential") else 1)
+                badm = ~(np.abs(lp - want) <= tol)
+                if badm.any():
+                    i = int(np.argmax(badm))
+                    add("logprob-highdim", f"{fam} with {dim} independent dimensions, scale/rate {scv} ({'float32' if f32 else 'float64'}): log_prob = {lp[i]!r}, textbook sum over dimensions = {want[i]!r}")
+        sample = {"leg": "highdim", "family": fam}
     elif leg == "std":
         for shape in [(), (3,), (2, 3)]:
             d = D.StandardNormal(shape)
